@@ -253,12 +253,13 @@ deriving DecidableEq, Repr
 /-- ═══ THE SWITCH ═══
     What /repo does with the rows an import has already committed when the import is then refused
     (a bad record in a later batch, or validateDbConsistency failing):
-      false = the unchanged code: nothing is removed (no statement under database/ deletes from `headers`,
-              see `C17_no_cleanup_statement`);
-      true  = the patch suggested in docs/findings/C17.md (empty the table before returning the error).
-    Flip this one constant when /repo is fixed; then `C17_no_leftover_with_cleanup` is the full theorem and
-    `C17_no_leftover_counterexample` (which is stated about `start`) stops holding. -/
-def cleanupOnRefusal : Bool := false
+      true  = the code since /repo commit "fix: a refused import leaves no headers behind": importHeaders calls
+              removeImportedHeaders (`DELETE FROM headers`) on both error paths — the table was empty when the import
+              started, so this removes exactly what the import wrote (pinned by `C17_cleanup_statement`);
+      false = the code before that commit: nothing was removed, the next start found `count > 0`, skipped import AND
+              validation and served the refused rows (finding K-C17-leftover, found by this check; its witness is
+              corpus/C17/k-c17-leftover.ops and `C17_leftover_before_fix`). -/
+def cleanupOnRefusal : Bool := true
 
 /-- importHeaders (import.go): skipped entirely — import AND validation — when the table already has rows -/
 def startWith (cleanup : Bool) (cfg : Cfg H) (cd : Codec H) (bs : Nat) (cps : List (Nat × H)) (tbl : Store H)
